@@ -139,13 +139,14 @@ func (vs *ValidatorSet) IncrementProposerPriority(times int64) {
 	// re-normalizing priorities, i.e., rescale all priorities by multiplying with:
 	//  2*totalVotingPower/(maxPriority - minPriority)
 	diffMax := PriorityWindowSizeFactor * vs.TotalVotingPower()
-	vs.RescalePriorities(diffMax)
-	vs.shiftByAvgProposerPriority()
 
 	var proposer *Validator
-	// Call IncrementProposerPriority(1) times times.
-
+	// Call IncrementProposerPriority(1) times times: re-normalize before every single
+	// increment, so that a node skipping rounds (times > 1) ends with the same priorities
+	// and proposer as a node that entered every round (times == 1, repeatedly).
 	for i := int64(0); i < times; i++ {
+		vs.RescalePriorities(diffMax)
+		vs.shiftByAvgProposerPriority()
 		proposer = vs.incrementProposerPriority()
 	}
 	vs.Proposer = proposer
